@@ -36,8 +36,13 @@ C03(E, S, line) ==
   LET X == E.expect  s == S.s IN
   ChkIf(/\ HasRecS(S, X.rid) /\ SmallStore(s)
         /\ X.widx \in 1..NWords(RecOfS(S, X.rid).tok)
-        /\ NWords(E.qtok) = 1 /\ ~E.qtok.words[1].fin
-        /\ IsPrefixOf(QWord(E, 1), RWord(S, X.rid, X.widx)),
+        \* what was typed is a prefix of the title word: either as the query tokeniser reads it, or literally (the
+        \* characters typed are the first characters of the word as the record tokeniser reports it, ending in a letter
+        \* or digit) - the two coincide as long as normalising twice changes nothing
+        /\ \/ /\ NWords(E.qtok) = 1 /\ ~E.qtok.words[1].fin
+              /\ IsPrefixOf(QWord(E, 1), RWord(S, X.rid, X.widx))
+           \/ /\ Len(E.q) >= 1 /\ IsPrefixOf(E.q, RWord(S, X.rid, X.widx))
+              /\ IsAlnum(E.q[Len(E.q)]),
         InHits(E, X.rid), line, "C03", "a prefix of a title word does not find the record")
 
 \* C04: one edit in a word of >= 5 letters (>= 3 distinct) still finds the record
